@@ -26,12 +26,13 @@ def isDigit (c : Nat) : Bool := 48 ≤ c && c ≤ 57
 
 /-! ### decimal text (`fmt` `%d`, `strconv.ParseInt`) -/
 
-/-- Digits of `n`, most significant first, prepended to `acc`. Fuel `n+1` always suffices. -/
-def decAux : Nat → Nat → Bytes → Bytes
-  | 0, _, acc => acc
-  | f + 1, n, acc => if n < 10 then (48 + n) :: acc else decAux f (n / 10) ((48 + n % 10) :: acc)
+/-- Decimal digits of `n` as ASCII, least significant first. Fuel `n+1` always suffices. -/
+def decRev : Nat → Nat → Bytes
+  | 0, _ => []
+  | f + 1, n => if n < 10 then [48 + n] else (48 + n % 10) :: decRev f (n / 10)
 
-def natDec (n : Nat) : Bytes := decAux (n + 1) n []
+/-- `%d` of a natural number. -/
+def natDec (n : Nat) : Bytes := (decRev (n + 1) n).reverse
 
 def intDec (z : Int) : Bytes := if z < 0 then 45 :: natDec z.natAbs else natDec z.toNat
 
